@@ -412,7 +412,12 @@ where
         let seed = g.next_u64();
         let n = if ctx.thorough { 40_000 } else { 12_000 };
         let mut p1 = IsotropicGaussian::<F>::new(F::of(std)).set_seed(seed);
-        let mut p2 = IsotropicGaussian::<F>::new(F::of(std)).set_seed(seed);
+        // the second one has been used before it is seeded: set_seed must make it equivalent all the same
+        let mut p2 = IsotropicGaussian::<F>::new(F::of(std));
+        for _ in 0..(case % 5) {
+            let _ = p2.sample(&vec![F::zero(); 1 + (case % 7) as usize]);
+        }
+        let mut p2 = p2.set_seed(seed);
         let zero = vec![F::zero(); d.min(4)];
         let dd = zero.len();
         let mut pool = vec![];
